@@ -27,9 +27,12 @@ def _lengths(w: int) -> tuple[int, ...]:
 class Credit:
     """Server policy deciding when WINDOW_UPDATE frames are sent."""
 
-    def __init__(self, mode: str, early: bool = False) -> None:
+    def __init__(self, mode: str, early: bool = False, settings_change: int = 0) -> None:
         self.mode = mode
         self.early = early  # answer with the response head before the upload has finished (legal)
+        # 1: together with the first late credit the server lowers MAX_FRAME_SIZE to 16384;
+        # 2: it raises INITIAL_WINDOW_SIZE by 7 (every open stream's window grows by the difference)
+        self.settings_change = settings_change
         self.pending: list[tuple[int | None, int]] = []  # (stream or None for connection, increment)
         self.srv: H2Server | None = None
 
@@ -75,6 +78,15 @@ class Credit:
     def release(self, sock: typing.Any) -> bool:
         if not self.pending or self.srv is None:
             return False
+        if self.settings_change:
+            ch, self.settings_change = self.settings_change, 0
+            if ch == 1:
+                self.srv.conn.update_settings({h2.settings.SettingCodes.MAX_FRAME_SIZE: 16384})
+            else:
+                self.srv.conn.update_settings({h2.settings.SettingCodes.INITIAL_WINDOW_SIZE:
+                                               self.srv.conn.local_settings.initial_window_size + 7})
+            self.changed = True
+            self.frames_before = {sid: len(st["data_frames"]) for sid, st in self.srv.streams.items()}
         s, k = self.pending.pop(0)
         self._inc(self.srv, s, k)
         self.srv.flush()
@@ -100,17 +112,17 @@ def _mk_body(n: int, split: bool, is_async: bool) -> typing.Any:
     "C13", "upload",
     quick=[{"flavour": "async", "_pre": f"w == {w}"} for w in range(3)] + [{"flavour": "sync", "_pre": "pol <= 1"}],
     thorough=[{"flavour": "async", "_pre": f"w == {w} and pol == {p}"} for w in range(3) for p in range(5)] + [{"flavour": "sync", "_pre": "pol <= 1"}],
-    example=dict(w=1, f=0, ln=5, pol=4, split=True, early=False),
-    require=("blocked-on-window", "complete"),
+    example=dict(w=1, f=0, ln=5, pol=4, split=True, early=False, sc=1),
+    require=("blocked-on-window", "complete", "settings-changed-during-the-wait"),
     timeout={"quick": 300, "thorough": 900},
-    symbolic="server INITIAL_WINDOW_SIZE w in {1,5,65535}; MAX_FRAME_SIZE in {16384, 2^24-1}; body length in {0,1,w-1,w,w+1,2w+3}; WINDOW_UPDATE schedule in {immediate, tiny increments, stream-first, connection-first, late}; body as bytes or a 3-chunk iterator; whether the server sends its response head before the upload has finished",
+    symbolic="server INITIAL_WINDOW_SIZE w in {1,5,65535}; MAX_FRAME_SIZE in {16384, 2^24-1}; body length in {0,1,w-1,w,w+1,2w+3}; WINDOW_UPDATE schedule in {immediate, tiny increments, stream-first, connection-first, late}; body as bytes or a 3-chunk iterator; whether the server sends its response head before the upload has finished; whether, while the client waits for credit, the server lowers MAX_FRAME_SIZE or changes INITIAL_WINDOW_SIZE",
     bounds="one upload per run (131,073 bytes at most, which also exhausts the 65,535-byte connection window); late credit is granted one WINDOW_UPDATE at a time whenever the client is blocked",
-    outside="window sizes other than {1,5,65535}; SETTINGS changes of the window mid-upload",
+    outside="window sizes other than {1,5,65535}; more than one SETTINGS change per upload",
     stubs=("strict h2 library in server role (raises FlowControlError / FrameTooLargeError on violations)",),
 )
-def upload(w: int, f: int, ln: int, pol: int, split: bool, early: bool) -> None:
+def upload(w: int, f: int, ln: int, pol: int, split: bool, early: bool, sc: int) -> None:
     """
-    pre: 0 <= w <= 2 and 0 <= f <= 1 and 0 <= ln <= 5 and 0 <= pol <= 4
+    pre: 0 <= w <= 2 and 0 <= f <= 1 and 0 <= ln <= 5 and 0 <= pol <= 4 and 0 <= sc <= 2
     post: _
     """
     is_async = shard("flavour", "async") == "async"
@@ -120,12 +132,15 @@ def upload(w: int, f: int, ln: int, pol: int, split: bool, early: bool) -> None:
     sp, ea = bool(split), bool(early)
     if not is_async and mode not in ("immediate", "tiny"):
         return  # the sync flavour has no second party to grant late credit
-    with concrete(win, frame, n, mode, sp, ea):
-        _upload(is_async, win, frame, n, mode, sp, ea)
+    scc = ladder(sc, 0, 2)
+    if scc and mode in ("immediate", "tiny"):
+        return  # the change rides on the first *late* credit
+    with concrete(win, frame, n, mode, sp, ea, scc):
+        _upload(is_async, win, frame, n, mode, sp, ea, scc)
 
 
-def _upload(is_async: bool, win: int, frame: int, n: int, mode: str, split: bool, early: bool) -> None:
-    credit = Credit(mode, early)
+def _upload(is_async: bool, win: int, frame: int, n: int, mode: str, split: bool, early: bool, sc: int = 0) -> None:
+    credit = Credit(mode, early, sc)
     su = Setup("h2prior", is_async, max_connections=1, h2_policy=credit,
                h2_settings={h2.settings.SettingCodes.INITIAL_WINDOW_SIZE: win, h2.settings.SettingCodes.MAX_FRAME_SIZE: frame})
     # warm-up first: the client has then processed the server's SETTINGS (an
@@ -141,6 +156,8 @@ def _upload(is_async: bool, win: int, frame: int, n: int, mode: str, split: bool
     sig = f"flow:up:w{win}:{mode}" + (":early-response" if early else "")
     if n > win or n > 65535:
         P.cover("blocked-on-window")
+    if getattr(credit, "changed", False):
+        P.cover("settings-changed-during-the-wait")
     P.check(not isinstance(o.exc, vrt.Hang), "upload-resumes-when-the-window-reopens", lambda: f"{sig}:stalled:n={n}")
     if not su.origins:
         P.fail("connected", sig + ":no-connection")
@@ -155,6 +172,10 @@ def _upload(is_async: bool, win: int, frame: int, n: int, mode: str, split: bool
         st = srv.streams[srv.order[-1]]
         P.check(st["body"] == data, "body-delivered-completely-in-order", lambda: f"{sig}:body:{len(st['body'])}!={len(data)}")
         P.check(all(k <= frame for k in st["data_frames"]), "frames<=max-frame-size", sig + ":frame-too-large")
+        if getattr(credit, "changed", False) and sc == 1:
+            nb = credit.frames_before.get(srv.order[-1], 0)
+            P.check(all(k <= 16384 for k in st["data_frames"][nb:]), "frames-after-the-change<=the-new-max-frame-size",
+                    sig + ":frame-too-large-after-settings-change")
         P.check(st["ended"], "stream-ended", sig + ":not-ended")
 
 
